@@ -672,6 +672,7 @@ def run(tier):
     jobs += pairs
     n1 = n2 = 0
     bad = 0
+    held = set()          # options whose predicate was evaluated and held in at least one spelling (measured, for distinct_nontrivial)
     for j, res in pmap(evaluate, jobs, check=ck):
         if "worker_exception" in res:
             ck.broken.append("worker failed on %s: %s" % (j, res["worker_exception"]))
@@ -689,6 +690,8 @@ def run(tier):
             else:
                 sig = "C19:pair=%s+%s" % (j[0], j[2])
             ck.violation(sig, "option %s given as [%s]: %s" % (what, sp, m), files={"p.l": res.get("spec", "")}, case={"flex_stderr": res.get("flex_stderr")})
+        if not res["msgs"] and j[2] is None:
+            held.add(j[0])
         if len(ck.samples) < 10 and j[2] is None:
             ck.sample({"option": j[0], "spelling": res["spelling"]})
     # order independence and spelling parity over all unordered pairs of distinct options (a pair of an option and its own negation is
@@ -709,11 +712,11 @@ def run(tier):
             ck.violation("C19:%s:%s+%s" % (kind, j[0], j[1]), m, case={"pair": j})
     ck.cov["order_parity_runs"] = nord
     ck.cov["order_parity_pairs"] = len(opairs)
-    ck.cov.update(evaluations=n1 + n2 + nord, distinct_nontrivial=len(T), options_in_table=len(T), single_option_probes=n1, pair_probes=n2,
+    ck.cov.update(evaluations=n1 + n2 + nord, distinct_nontrivial=len(held), options_in_table=len(T), single_option_probes=n1, pair_probes=n2,
                   rule="bound 1: every option of the table in every spelling (short and long command-line form, %option) with an executable predicate "
                        "from the manual (files written, symbols present/absent in nm, a probe program compiles, links and prints the expected "
                        "tokens/values); bound 2: the probe of one option with the flags of a second, independent option added must still satisfy "
-                       "the first option's predicate; distinct_nontrivial = number of distinct options with a predicate")
+                       "the first option's predicate; distinct_nontrivial = number of distinct options of the table whose predicate was evaluated and held in at least one spelling during this run")
     ck.assumptions += ["documented contradictions (-Cf with -Cm/-I/-CF, -l and -+ conflicts, REJECT with full tables) are C02's refusal table",
                        "-S (skeleton file) and %option rewrite are flex-development options and are not probed"]
     ck.guard(n1 > 100, "too few probes: %d" % n1)
